@@ -483,6 +483,7 @@ Lemma inner_shutdown_ok c max_id :
   cinv c -> max_id < 2 ^ 62 -> exists c', inner_shutdown c max_id = Ok c' /\ cinv c'.
 Proof.
   intros Hc Hm. unfold inner_shutdown.
+  destruct (shutdown_checks_conn_error && c_conn_error c); [exists c; auto|].
   destruct (match c_sent_closing c with Some s => cmp_skip s max_id | None => false end); [exists c; auto|].
   destruct gen_setup as (_ & _ & _ & _ & _ & -> & _).
   destruct (goaway_wb max_id Hm) as (w & E & Hgo). unfold write_to. rewrite E. eexists. split; [reflexivity|].
